@@ -349,6 +349,17 @@ func c25OpLen(o byte) int {
 
 func init() { c25Progs = append(c25Progs, allOpcodes()) } // P12
 
+// P13: MBC3+RAM, 4 banks: reads, then writes (P6's program on the fourth controller type)
+func init() {
+	c25Progs = append(c25Progs, machine.ProgramCart(0x13, 0x03, map[uint16][]byte{0x100: {
+		0x3e, 0x0a, 0xea, 0x00, 0x00, // RAM enable
+		0x3e, 0x02, 0xea, 0x00, 0x40, // RAM bank 2
+		0xfa, 0x00, 0xa0, 0xea, 0x00, 0xc0, // LD A,(A000); LD (C000),A
+		0x3e, 0x66, 0xea, 0x00, 0xa0, // LD (A000),66
+		0x21, 0x01, 0xa0, 0x34, 0x2c, 0x18, 0xfc, // LD HL,A001; INC (HL); INC L; JR -4
+	}}))
+}
+
 // c25AllOpcodesCovered runs P12 alone and counts the distinct opcodes fetched in 2.5 rounds: the guest must really get
 // through all of them (a harness self-check; it says nothing about the emulator).
 func c25AllOpcodesCovered() int {
@@ -653,7 +664,7 @@ func init() {
 			units = []int{1, 7, 61}
 		}
 		gen := func(yield func(c25Case) bool) {
-			progSets2 := [][]int{{0, 1}, {1, 2}, {2, 0}, {2, 2}, {3, 4}, {4, 3}, {4, 4}, {5, 5}, {3, 6}, {6, 4}, {7, 8}, {8, 7}, {7, 7}, {9, 9}, {9, 2}}
+			progSets2 := [][]int{{0, 1}, {1, 2}, {2, 0}, {2, 2}, {3, 4}, {4, 3}, {4, 4}, {5, 5}, {3, 6}, {6, 4}, {7, 8}, {8, 7}, {7, 7}, {9, 9}, {9, 2}, {13, 13}, {13, 6}, {3, 13}}
 			progSets3 := [][]int{{0, 1, 2}, {2, 1, 0}, {3, 5, 4}, {7, 9, 8}}
 			for _, sh := range shapes {
 				sets := progSets2
@@ -733,7 +744,7 @@ func init() {
 		}
 		explore.Product(c.R, "interleavings", explore.PartOpt{Workers: 1, Guard: true,
 			Bound:  fmt.Sprintf("all interleavings of shapes %v (instances x steps), units %v cycles + frame steps 2x3, 3x2; 3 creation orders", shapes, units),
-			Domain: "instances built with and without the debug options (CPU trace, debug LCD geometry) side by side; 13 guest programs (a guest executing every defined opcode once per round; a second video program with other tile data and scroll; execution across echo RAM into object memory with the LCD on; ALU/CB/branches; stores/stack/CALL; timer interrupt + HALT; cartridge RAM writer on MBC1 with 4 banks; cartridge RAM read-before-write on MBC1 with 1 bank, on MBC2 and on MBC5; two sound programs that power-cycle the APU and run different channel-1 sweeps; video + OAM DMA + serial + joypad select)"},
+			Domain: "instances built with and without the debug options (CPU trace, debug LCD geometry) side by side; 14 guest programs (cartridge RAM on MBC3; a guest executing every defined opcode once per round; a second video program with other tile data and scroll; execution across echo RAM into object memory with the LCD on; ALU/CB/branches; stores/stack/CALL; timer interrupt + HALT; cartridge RAM writer on MBC1 with 4 banks; cartridge RAM read-before-write on MBC1 with 1 bank, on MBC2 and on MBC5; two sound programs that power-cycle the APU and run different channel-1 sweeps; video + OAM DMA + serial + joypad select)"},
 			gen, func() *c25Env { return &c25Env{solo: map[string][]uint64{}, out: capture, exe: c.SelfExe} }, c25Check)
 		os.Stdout = oldStdout
 		c25RacePass(c)
